@@ -78,6 +78,7 @@ type c15Inst struct {
 	nextNormal  int
 	lastVoter   int
 	frozenAdmin int // index of an admin frozen mid-history (-1 none)
+	reactivated bool // that admin has been activated again
 	last        *c15Step
 	seq         int
 }
@@ -139,7 +140,7 @@ func (in *c15Inst) open() (pb.Transaction, *c15Proposal) {
 	in.seq++
 	p := &c15Proposal{votes: map[string]string{}, electors: map[string]int{}, status: "proposed"}
 	for i, wt := range in.cfg.admins {
-		if i == in.frozenAdmin {
+		if i == in.frozenAdmin && !in.reactivated {
 			continue
 		}
 		p.electors[fix.Addr(fix.AdminKeys[i]).String()] = wt
@@ -215,7 +216,7 @@ func (in *c15Inst) apply(op string) bool {
 		case "next":
 			// next normal admin (by index) that has not voted yet
 			for i := range in.cfg.admins {
-				if in.cfg.admins[i] == 1 && i != in.frozenAdmin {
+				if in.cfg.admins[i] == 1 && (i != in.frozenAdmin || in.reactivated) {
 					if _, voted := p.votes[fix.Addr(fix.AdminKeys[i]).String()]; !voted {
 						voter = i
 						break
@@ -246,7 +247,7 @@ func (in *c15Inst) apply(op string) bool {
 		// model: is the vote acceptable?
 		_, eligible := p.electors[addr]
 		_, voted := p.votes[addr]
-		available := voter >= 0 && voter != in.frozenAdmin
+		available := voter >= 0 && (voter != in.frozenAdmin || in.reactivated)
 		switch {
 		case p.concluded:
 			st.expected, st.why = "refuse", "proposal already concluded"
@@ -306,6 +307,31 @@ func (in *c15Inst) apply(op string) bool {
 		if p := in.current(); p != nil && !p.concluded {
 			if _, ok := p.electors[fix.Addr(fix.AdminKeys[idx]).String()]; ok {
 				p.avail--
+				in.tallyElectorate(p)
+			}
+		}
+		st.res = nil
+	case "activateadmin": // the frozen admin is activated again by an approved proposal (also while a proposal is open)
+		if in.frozenAdmin < 0 || in.reactivated {
+			return false
+		}
+		idx := in.frozenAdmin
+		res := w.Block(w.InvokeTx(in.adminKey(0), constant.RoleContractAddr, "ActivateRole", pb.String(fix.Addr(fix.AdminKeys[idx]).String()), pb.String("r")))
+		if !res.Receipts[0].IsSuccess() {
+			panic(fmt.Errorf("fixture: ActivateRole: %s", res.Receipts[0].Ret))
+		}
+		id := fix.ProposalID(res.Receipts[0])
+		for i := 0; i < idx; i++ {
+			w.Block(w.VoteTx(i, id, "approve"))
+		}
+		if rec, _ := in.readProposal(id); rec == nil || string(rec.Status) != "approve" {
+			panic(fmt.Errorf("fixture: activate proposal %s not approved", id))
+		}
+		in.reactivated = true
+		// open proposals whose electorate contains the admin regain one available elector
+		if p := in.current(); p != nil && !p.concluded {
+			if _, ok := p.electors[fix.Addr(fix.AdminKeys[idx]).String()]; ok {
+				p.avail++
 				in.tallyElectorate(p)
 			}
 		}
@@ -458,7 +484,7 @@ func votesString(p *c15Proposal) string {
 }
 
 func C15(c *mc.Ctx) {
-	ops := []string{"open", "vote:super:approve", "vote:super:reject", "vote:next:approve", "vote:next:reject", "vote:last:approve", "vote:outsider:approve", "vote:next:maybe", "withdraw:self", "withdraw:other", "freezeadmin", "vote:frozen:approve", "vote:super2:approve"}
+	ops := []string{"open", "vote:super:approve", "vote:super:reject", "vote:next:approve", "vote:next:reject", "vote:last:approve", "vote:outsider:approve", "vote:next:maybe", "withdraw:self", "withdraw:other", "freezeadmin", "vote:frozen:approve", "vote:super2:approve", "activateadmin"}
 	depth := 6
 	cfgs := c15Configs
 	if c.Quick() {
@@ -475,7 +501,7 @@ func C15(c *mc.Ctx) {
 			},
 			Key: func(x mc.Instance) string {
 				in := x.(*c15Inst)
-				return in.w.R.State.Digest() + fmt.Sprint(in.lastVoter, in.frozenAdmin)
+				return in.w.R.State.Digest() + fmt.Sprint(in.lastVoter, in.frozenAdmin, in.reactivated)
 			},
 			Check: func(x mc.Instance, path []string) { x.(*c15Inst).check(c, path) },
 			Close: func(x mc.Instance) { x.(*c15Inst).w.R.Close() },
